@@ -598,6 +598,11 @@ func (p *parser) primary() Expr {
 			p.next()
 			return &EBool{t.s == "true"}
 		case "old", "entry":
+			if !(p.p+1 < len(p.t) && p.t[p.p+1].k == "op" && p.t[p.p+1].s == "(") {
+				// a program variable that happens to be called `old` / `entry`
+				p.next()
+				return &EName{t.s}
+			}
 			p.next()
 			p.expect("(")
 			x := p.expr()
